@@ -324,6 +324,10 @@ func TestC08(t *testing.T) {
 	prop := func(rt *rapid.T) {
 		o := genOpts()
 		o.MoreHeredocs = true
+		o.SpacedSubstDelim = 1
+		if excluded["heredoc_delimiter_spaced_substitution"] {
+			o.SpacedSubstDelim = -1
+		}
 		o.MaxDepth = rapid.IntRange(1, 3).Draw(rt, "maxdepth")
 		o.Budget = rapid.IntRange(1, 8).Draw(rt, "budget")
 		p := gen.Complete(gen.RapidChooser{T: rt}, o)
@@ -374,6 +378,11 @@ func TestC08(t *testing.T) {
 		for k, v := range p.Feat {
 			if strings.HasPrefix(k, "heredoc_") {
 				st.ClassN(k, int64(v))
+			}
+			if strings.HasPrefix(k, "excluded:") {
+				for i := 0; i < v; i++ {
+					st.Exclude(strings.TrimPrefix(k, "excluded:"))
+				}
 			}
 		}
 		for _, h := range p.HDs {
